@@ -1,8 +1,8 @@
 SPECIFICATION Spec
 CONSTANTS
   Trees <- const_TreesRace
-  Ops <- const_OpsResolve
-  Backends = {"emulated"}
+  Ops <- const_OpsAll
+  Backends = {"emulated", "kernel"}
   MaxIno = 10
   KMaxLinks = 4
   EmuMaxLinks = 7
@@ -10,8 +10,9 @@ CONSTANTS
   MaxAttack = 1
   AtkNames <- const_AtkNames
   AtkBodies <- const_AtkBodies
-  ChkAfterDotDot = FALSE
-  ChkFinal = FALSE
+  AtkKinds = {"rename", "exchange", "unlink", "symlink", "mkdir"}
+  ChkAfterDotDot = TRUE
+  ChkFinal = TRUE
   ClampDotDot = TRUE
   RestartAbsAtRoot = TRUE
   NoFollowOnOpen = TRUE
